@@ -302,7 +302,7 @@ attach(struct detached_bitstream dbs)
 
   check_invariants();
   sched_unlock();
-  VERIF_YIELD(VS_COMPUTE_BEGIN, dbs.offset);
+  VERIF_YIELD(VS_ATTACH, dbs.offset);
   return bs;
 }
 
